@@ -128,7 +128,7 @@ fn damaged() -> Vec<Fault> {
     v
 }
 
-const PREFIXES: [&str; 5] = ["", "PRINT \"é日\":", "  ", "A=1:B=2:", "PRINT \"éé\";\"日\":X$=\"ü\":"];
+const PREFIXES: [&str; 7] = ["", "PRINT \"é日\":", "  ", "A=1:B=2:", "PRINT \"éé\";\"日\":X$=\"ü\":", "A=&17:B=&HF:", "IF A=&7 OR A=1E5 OR A=2.5# THEN A=&H1F:"];
 const LINE_NUMBERS: [u32; 6] = [5, 20, 500, 5000, 50000, 65529];
 
 fn char_slice(s: &str, a: usize, b: usize) -> Option<String> {
@@ -460,7 +460,9 @@ struct BrokenWhileStopped;
 
 /// (the last one breaks the program by itself: DELETE executed by the program ends the run)
 const STOPPERS: [&str; 4] = ["STOP", "END", "A$=INKEY$:IF A$=\"\" THEN 50", "DELETE 40"];
-const BREAKING_EDITS: [&str; 7] = ["DELETE 40", "40", "DELETE 30-40", "20 GOTO 77", "60 GOTO 77", "35 WEND", "DELETE 40-"];
+const BREAKING_EDITS: [&str; 8] = ["DELETE 40", "40", "DELETE 30-40", "20 GOTO 77", "60 GOTO 77", "35 WEND", "DELETE 40-", "LOAD \"bad\""];
+/// the file LOADed by the last edit: a program with a dangling reference
+const BAD_FILE: &str = "10 PRINT \"m10\";\n20 PRINT \"m20\";:GOTO 77\n30 PRINT \"m30\";\n40 PRINT \"m40\";\n50 PRINT \"m50\";\n55 PRINT \"m55\";\n";
 const RESUMES: [&str; 9] = ["CONT", "RETURN", "NEXT", "GOTO 10", "GOSUB 30", "RUN", "RUN 20", "ON 1 GOTO 30", "IF 1 THEN 30"];
 
 impl Sweep for BrokenWhileStopped {
@@ -490,6 +492,7 @@ impl Sweep for BrokenWhileStopped {
                     }
                     let r = guard(|| {
                         let mut s = Session::with(5000, 40);
+                        s.files.push(("bad".into(), BAD_FILE.into()));
                         for l in &prog {
                             s.enter(l);
                         }
